@@ -8,7 +8,7 @@ pid=$1; cand=$2; demo=$3; demodir=$4; democmd=$5; skipsuite=${6:-}
 wt=/var/tmp/wt-seedtest-$pid-$$
 git -C /repo worktree add --detach "$wt" HEAD -q || exit 2
 h=$(echo -n "$wt" | sha1sum | cut -c1-40)
-trap 'git -C /repo worktree remove --force "$wt" >/dev/null 2>&1; rm -rf /verif/.build/harness-${h:0:8} /verif/.build/drive-*${h:0:6} /verif/.build/go${h:0:6}.lock' EXIT
+trap 'git -C /repo worktree remove --force "$wt" >/dev/null 2>&1; rm -rf /verif/.build/harness-${h:0:8} /verif/.build/lean-${h:0:8} /verif/.build/drive-*${h:0:6} /verif/.build/go${h:0:6}.lock' EXIT
 mkdir -p "$wt/$demodir"; cp "$cand/$demo" "$wt/$demodir/"
 cd "$wt"
 echo "== demo WITHOUT the change (must pass)"; bash -c "$democmd" > "$cand/demo_without.log" 2>&1; rc_without=$?; tail -3 "$cand/demo_without.log"
